@@ -619,6 +619,13 @@ class Evaluator:
             if home is not None and home.self_obj is not None and recv is home.self_obj and a in home.class_methods:
                 return home.method(a)(recv, *args, **kwargs)      # another method of the object the folded method belongs to
             raise Unfoldable(f"method call {key} on {type(recv).__name__}")
+        if isinstance(n.func, (ast.Call, ast.Subscript, ast.IfExp)):
+            # the callee is computed: `type(x)(v)`, `table[k](v)`, `(f if c else g)(v)`
+            f = self.ev(n.func)
+            if f in _TYPES.values():
+                return self._builtin(f, args, kwargs)
+            if callable(f) and not isinstance(f, type):
+                return f(*args, **kwargs)
         raise Unfoldable(f"call of {key}")
 
     def _builtin(self, f, args, kwargs):
